@@ -97,9 +97,9 @@ theorem get_remove (h : Hub) (id x : String) :
     · simp [hp, hxi]
     · simp [hp]
 
-theorem get_add (h : Hub) (id x : String) (hn : h.get id = none) :
-    (Hub.mk (h.ports ++ [⟨id, true, none⟩])).get x = if x = id then some ⟨id, true, none⟩ else h.get x := by
-  unfold Hub.get at *
+theorem get_add (h : Hub) (id x : String) (en : Bool) (hn : h.get id = none) :
+    (register h id en).get x = if x = id then some ⟨id, en, none⟩ else h.get x := by
+  unfold register Hub.get at *
   simp only [List.find?_append]
   by_cases hxi : x = id
   · subst hxi
@@ -723,44 +723,46 @@ theorem removePort_acyclic (h : Hub) (id : String) (ha : Acyclic h) : Acyclic (r
     rw [get_remove] at h4
     simpa [(hhas a h2).1] using h4
 
+theorem register_acyclic (h : Hub) (id : String) (en : Bool) (hg : h.get id = none) (ha : Acyclic h) :
+    Acyclic (register h id en) := by
+  -- the new port has no expression: every edge of the new graph starts at an old port
+  have hrefs : ∀ x, (register h id en).refs x = h.refs x := by
+    intro x
+    unfold Hub.refs Hub.exprOf
+    rw [get_add h id x en hg]
+    by_cases hxi : x = id
+    · subst hxi; simp [hg]
+    · simp [hxi]
+  have hhas : ∀ x, (register h id en).Has x → x ≠ id → h.Has x := by
+    intro x hx hxi
+    unfold Hub.Has at hx ⊢
+    rw [get_add h id x en hg] at hx
+    simpa [hxi] using hx
+  have hsrc : ∀ a b, Reads (register h id en) a b → a ≠ id ∧ h.Has a := by
+    intro a b ⟨_, _, _, h4⟩
+    rw [hrefs] at h4
+    have := has_of_refs h4
+    exact ⟨fun hai => not_has_of_get hg (hai ▸ this), this⟩
+  have hold : ∀ x y, TG (Reads (register h id en)) x y → y ≠ id → TG (Reads h) x y := by
+    intro x y hp
+    induction hp with
+    | @single a b r =>
+      intro hb
+      exact TG.single ⟨r.1, (hsrc a b r).2, hhas b r.2.2.1 hb, by have := r.2.2.2; rwa [hrefs] at this⟩
+    | @cons a b c r rest ih =>
+      intro hc
+      obtain ⟨d, hd⟩ := rest.source
+      have hb : b ≠ id := (hsrc b d hd).1
+      exact TG.cons ⟨r.1, (hsrc a b r).2, hhas b r.2.2.1 hb, by have := r.2.2.2; rwa [hrefs] at this⟩ (ih hc)
+  intro p hcyc
+  obtain ⟨d, hd⟩ := hcyc.source
+  exact ha p (hold p p hcyc (hsrc p d hd).1)
+
 theorem addPort_acyclic (h : Hub) (id : String) (ha : Acyclic h) : Acyclic (addPort h id).1 := by
   unfold addPort
   cases hg : h.get id with
   | some p => exact ha
-  | none =>
-    simp only []
-    -- the new port has no expression: every edge of the new graph starts at an old port
-    have hrefs : ∀ x, (Hub.mk (h.ports ++ [⟨id, true, none⟩])).refs x = h.refs x := by
-      intro x
-      unfold Hub.refs Hub.exprOf
-      rw [get_add h id x hg]
-      by_cases hxi : x = id
-      · subst hxi; simp [hg]
-      · simp [hxi]
-    have hhas : ∀ x, (Hub.mk (h.ports ++ [⟨id, true, none⟩])).Has x → x ≠ id → h.Has x := by
-      intro x hx hxi
-      unfold Hub.Has at hx ⊢
-      rw [get_add h id x hg] at hx
-      simpa [hxi] using hx
-    have hsrc : ∀ a b, Reads (Hub.mk (h.ports ++ [⟨id, true, none⟩])) a b → a ≠ id ∧ h.Has a := by
-      intro a b ⟨_, _, _, h4⟩
-      rw [hrefs] at h4
-      have := has_of_refs h4
-      exact ⟨fun hai => not_has_of_get hg (hai ▸ this), this⟩
-    have hold : ∀ x y, TG (Reads (Hub.mk (h.ports ++ [⟨id, true, none⟩]))) x y → y ≠ id → TG (Reads h) x y := by
-      intro x y hp
-      induction hp with
-      | @single a b r =>
-        intro hb
-        exact TG.single ⟨r.1, (hsrc a b r).2, hhas b r.2.2.1 hb, by have := r.2.2.2; rwa [hrefs] at this⟩
-      | @cons a b c r rest ih =>
-        intro hc
-        obtain ⟨d, hd⟩ := rest.source
-        have hb : b ≠ id := (hsrc b d hd).1
-        exact TG.cons ⟨r.1, (hsrc a b r).2, hhas b r.2.2.1 hb, by have := r.2.2.2; rwa [hrefs] at this⟩ (ih hc)
-    intro p hcyc
-    obtain ⟨d, hd⟩ := hcyc.source
-    exact ha p (hold p p hcyc (hsrc p d hd).1)
+  | none => exact register_acyclic h id true hg ha
 
 theorem blank_acyclic (ports : List PortEntry) : Acyclic ⟨ports.map fun p => { p with expr := none }⟩ := by
   intro x hc
@@ -836,6 +838,65 @@ theorem run_acyclic (ops : List Op) : ∀ h, Acyclic h → Acyclic (run h ops) :
   induction ops with
   | nil => intro h ha; exact ha
   | cons op ops ih => intro h ha; exact ih _ (step_acyclic h op ha)
+
+/-! ### Absent ports with a persisted record -/
+
+theorem loadOne_acyclic (h : Hub) (r : PortEntry) (ha : Acyclic h) : Acyclic (loadOne h r) := by
+  unfold loadOne
+  cases r.expr with
+  | none => exact ha
+  | some e => exact assign_acyclic h r.id (some e) ha
+
+theorem loadRecord_acyclic (h : Hub) (r : PortEntry) (en : Bool) (hg : h.get r.id = none) (ha : Acyclic h) :
+    Acyclic (loadRecord h r en) :=
+  loadOne_acyclic _ r (register_acyclic h r.id en hg ha)
+
+theorem record_id {s : Sys} {id : String} {r : PortEntry} (hr : s.record id = some r) : r.id = id := by
+  have := List.find?_some hr
+  simpa using this
+
+theorem sAdd_acyclic (s : Sys) (id : String) (ha : Acyclic s.hub) : Acyclic (sAdd s id).1.hub := by
+  unfold sAdd
+  cases hg : s.hub.get id with
+  | some p => exact ha
+  | none =>
+    cases hr : s.record id with
+    | none => exact addPort_acyclic s.hub id ha
+    | some r => exact loadRecord_acyclic s.hub r true (by rw [record_id hr]; exact hg) ha
+
+theorem sUnload_acyclic (s : Sys) (id : String) (ha : Acyclic s.hub) : Acyclic (sUnload s id).1.hub := by
+  unfold sUnload
+  cases hg : s.hub.get id with
+  | none => exact ha
+  | some p => exact removePort_acyclic s.hub id ha
+
+theorem sLoad_acyclic (s : Sys) (id : String) (ha : Acyclic s.hub) : Acyclic (sLoad s id).1.hub := by
+  unfold sLoad
+  cases hg : s.hub.get id with
+  | some p => exact ha
+  | none =>
+    cases hr : s.record id with
+    | none => exact ha
+    | some r => exact loadRecord_acyclic s.hub r r.enabled (by rw [record_id hr]; exact hg) ha
+
+theorem sstep_acyclic (s : Sys) (op : SOp) (ha : Acyclic s.hub) : Acyclic (sstep s op).1.hub := by
+  cases op with
+  | hub op =>
+    cases op with
+    | assign id parsed => exact assign_acyclic s.hub id parsed ha
+    | clear id => exact clear_acyclic s.hub id ha
+    | removePort id => exact removePort_acyclic s.hub id ha
+    | setEnabled id v => exact setEnabled_acyclic s.hub id v ha
+    | reload => exact reload_acyclic _
+    | restore entries => exact restore_acyclic s.hub entries
+    | addPort id => exact sAdd_acyclic s id ha
+  | unload id => exact sUnload_acyclic s id ha
+  | load id => exact sLoad_acyclic s id ha
+
+theorem srun_acyclic (ops : List SOp) : ∀ s : Sys, Acyclic s.hub → Acyclic (srun s ops).hub := by
+  induction ops with
+  | nil => intro s ha; exact ha
+  | cons op ops ih => intro s ha; exact ih _ (sstep_acyclic s op ha)
 
 /-! ### Concurrent requests: interleavings of atomic check+install steps
 
